@@ -388,7 +388,7 @@ func (e *FEnc) ghostDecls0() ([]string, error) {
 		if body.Sort != rs {
 			return fmt.Errorf("ghost %s: body has sort %s, declared %s", name, body.Sort, rs)
 		}
-		for k := range used {
+		for _, k := range sortedKeys(used) {
 			e.usedGhost[k] = true
 			if k == name {
 				gd.rec = true
